@@ -347,7 +347,7 @@ package redblacktree
 //@   at exit: if old(Has(tree, key)) then pnew := old(tree.rank[key])
 //@   ensures [C01 C02 C17] Inv(tree) && tree.Comparator == old(tree.Comparator)
 //@   ensures owners: forall x like tree.Root :: fresh(x) ==> x.tr == tree || x.tr == nil
-//@   ensures [C01 C02] at: 0 <= pnew && pnew < tree.size && tree.Comparator(key, KeyAt(tree, pnew)) == 0 && ValAt(tree, pnew) == value && tree.rank[key] == pnew
+//@   ensures [C01 C02] at: 0 <= pnew && pnew < tree.size && tree.Comparator(key, KeyAt(tree, pnew)) == 0 && ValAt(tree, pnew) == value && tree.rank[key] == pnew && KeyAt(tree, pnew) == key
 //@   ensures [C01 C02] replaced: old(Has(tree, key)) ==> tree.size == old(tree.size) && tree.nodes == old(tree.nodes) && tree.rank == old(tree.rank)
 //@     && (forall i :: 0 <= i && i < tree.size && i != pnew ==> KeyAt(tree, i) == old(KeyAt(tree, i)) && ValAt(tree, i) == old(ValAt(tree, i)))
 //@   ensures [C01 C02] inserted: !old(Has(tree, key)) ==> tree.size == old(tree.size) + 1 && fresh(tree.nodes[pnew])
@@ -384,3 +384,52 @@ package redblacktree
 //@     && (forall i :: 0 <= i && i < old(tree.rank[key]) ==> KeyAt(tree, i) == old(KeyAt(tree, i)) && ValAt(tree, i) == old(ValAt(tree, i)))
 //@     && (forall i :: old(tree.rank[key]) <= i && i < tree.size ==> KeyAt(tree, i) == old(KeyAt(tree, i+1)) && ValAt(tree, i) == old(ValAt(tree, i+1)))
 //@   ensures [C01] map: forall k like key :: (Has(tree, k) <==> old(Has(tree, k)) && tree.Comparator(k, key) != 0) && (Has(tree, k) ==> Val(tree, k) == old(Val(tree, k)))
+
+// ---- JSON (C11 round trip, C12 replace / sound / atomic) ----
+
+//@ func Tree.ToJSON
+//@   requires Inv(tree)
+//@   modifies nothing
+//@   ensures [C11 C17 C18] result1 == nil && fresh(arr(result0)) && jobj_kind(result0, argof(tree.Comparator, 0), tree.Root.Value) == 3 && jobj_card(result0, argof(tree.Comparator, 0), tree.Root.Value) == tree.size
+//@   ensures [C11] content: forall i :: 0 <= i && i < tree.size ==> jobj_has(result0, KeyAt(tree, i), tree.Root.Value) && jobj_val(result0, KeyAt(tree, i), tree.Root.Value) == ValAt(tree, i)
+//@   ensures [C11] only: forall k like argof(tree.Comparator, 0) :: jobj_has(result0, k, tree.Root.Value) ==> Has(tree, k) && KeyAt(tree, tree.rank[k]) == k
+//@   loop 1:
+//@     invariant ItInv(it) && fresh(it) && it.tree == tree && fresh(elements) && elements != nil && len(elements) == Cur(it) + 1 && Cur(it) < tree.size
+//@     invariant forall j :: 0 <= j && j <= Cur(it) && j < tree.size ==> has(elements, KeyAt(tree, j)) && elements[KeyAt(tree, j)] == ValAt(tree, j)
+//@     invariant forall k like argof(tree.Comparator, 0) :: has(elements, k) ==> Has(tree, k) && tree.rank[k] <= Cur(it) && KeyAt(tree, tree.rank[k]) == k
+//@     decreases tree.size - Cur(it)
+
+//@ func Tree.MarshalJSON
+//@   requires Inv(tree)
+//@   modifies nothing
+//@   ensures [C11 C17 C18] result1 == nil && fresh(arr(result0)) && jobj_kind(result0, argof(tree.Comparator, 0), tree.Root.Value) == 3 && jobj_card(result0, argof(tree.Comparator, 0), tree.Root.Value) == tree.size
+//@   ensures [C11] content: forall i :: 0 <= i && i < tree.size ==> jobj_has(result0, KeyAt(tree, i), tree.Root.Value) && jobj_val(result0, KeyAt(tree, i), tree.Root.Value) == ValAt(tree, i)
+//@   ensures [C11] only: forall k like argof(tree.Comparator, 0) :: jobj_has(result0, k, tree.Root.Value) ==> Has(tree, k) && KeyAt(tree, tree.rank[k]) == k
+
+//@ func Tree.FromJSON
+//@   requires Inv(tree)
+//@   modifies tree.Root, tree.size, tree.n, tree.nodes, tree.rank
+//@   modifies each x like tree.Root where x.tr == tree : x.Left, x.Right, x.Parent, x.a, x.b, x.color, x.Key, x.Value, x.pos, x.tr
+//@   ensures [C12 C17] Inv(tree) && tree.Comparator == old(tree.Comparator) && (result == nil <==> jobj_kind(data, argof(tree.Comparator, 0), tree.Root.Value) >= 2)
+//@   ensures [C12] atomic: result != nil ==> tree.size == old(tree.size) && (forall i :: 0 <= i && i < tree.size ==> KeyAt(tree, i) == old(KeyAt(tree, i)) && ValAt(tree, i) == old(ValAt(tree, i)))
+//@   ensures [C11 C12] loaded-all: jobj_kind(data, argof(tree.Comparator, 0), tree.Root.Value) == 3 ==> (forall k like argof(tree.Comparator, 0) :: jobj_has(data, k, tree.Root.Value) ==> Has(tree, k))
+//@   ensures [C11 C12] loaded-only: jobj_kind(data, argof(tree.Comparator, 0), tree.Root.Value) == 3 ==> (forall i :: 0 <= i && i < tree.size ==> jobj_has(data, KeyAt(tree, i), tree.Root.Value) && ValAt(tree, i) == jobj_val(data, KeyAt(tree, i), tree.Root.Value))
+//@   ensures [C12] null: jobj_kind(data, argof(tree.Comparator, 0), tree.Root.Value) == 2 ==> tree.size == 0
+//@   loop 1:
+//@     invariant Inv(tree) && tree.Comparator == old(tree.Comparator) && err == nil && jobj_kind(data, argof(tree.Comparator, 0), tree.Root.Value) >= 2
+//@     invariant jobj_kind(data, argof(tree.Comparator, 0), tree.Root.Value) == 3 ==> elements != nil && (forall k like argof(tree.Comparator, 0) :: has(elements, k) <==> jobj_has(data, k, tree.Root.Value)) && (forall k like argof(tree.Comparator, 0) :: has(elements, k) ==> elements[k] == jobj_val(data, k, tree.Root.Value))
+//@     invariant jobj_kind(data, argof(tree.Comparator, 0), tree.Root.Value) == 2 ==> elements == nil && tree.size == 0
+//@     invariant forall k like argof(tree.Comparator, 0) :: visited1[k] ==> Has(tree, k)
+//@     invariant forall i :: 0 <= i && i < tree.size ==> visited1[KeyAt(tree, i)] && has(elements, KeyAt(tree, i)) && ValAt(tree, i) == elements[KeyAt(tree, i)]
+//@     invariant forall x like tree.Root :: fresh(x) ==> x.tr == tree || x.tr == nil
+//@     decreases len(elements) - nvisited1
+
+//@ func Tree.UnmarshalJSON
+//@   requires Inv(tree)
+//@   modifies tree.Root, tree.size, tree.n, tree.nodes, tree.rank
+//@   modifies each x like tree.Root where x.tr == tree : x.Left, x.Right, x.Parent, x.a, x.b, x.color, x.Key, x.Value, x.pos, x.tr
+//@   ensures [C12 C17] Inv(tree) && tree.Comparator == old(tree.Comparator) && (result == nil <==> jobj_kind(bytes, argof(tree.Comparator, 0), tree.Root.Value) >= 2)
+//@   ensures [C12] atomic: result != nil ==> tree.size == old(tree.size) && (forall i :: 0 <= i && i < tree.size ==> KeyAt(tree, i) == old(KeyAt(tree, i)) && ValAt(tree, i) == old(ValAt(tree, i)))
+//@   ensures [C11 C12] loaded-all: jobj_kind(bytes, argof(tree.Comparator, 0), tree.Root.Value) == 3 ==> (forall k like argof(tree.Comparator, 0) :: jobj_has(bytes, k, tree.Root.Value) ==> Has(tree, k))
+//@   ensures [C11 C12] loaded-only: jobj_kind(bytes, argof(tree.Comparator, 0), tree.Root.Value) == 3 ==> (forall i :: 0 <= i && i < tree.size ==> jobj_has(bytes, KeyAt(tree, i), tree.Root.Value) && ValAt(tree, i) == jobj_val(bytes, KeyAt(tree, i), tree.Root.Value))
+//@   ensures [C12] null: jobj_kind(bytes, argof(tree.Comparator, 0), tree.Root.Value) == 2 ==> tree.size == 0
